@@ -18,7 +18,7 @@ _HERE = os.path.dirname(os.path.abspath(__file__))
 _POOL = {
     'engine': 'cbmc', 'shims': ['moodycamel', '../harness/C04/shim'],
     'repo_sources': ['dispenso/detail/per_thread_info.cpp', 'dispenso/task_set.cpp'],
-    'unwind': 4, 'spin_loops': True, 'timeout': 400,
+    'unwind': 4, 'spin_loops': True, 'timeout': 1500,
 }
 
 
@@ -65,8 +65,9 @@ def ordr(setk, pool, cost=1, how=0, tiers=('thorough',)):
 _Q = ('quick', 'thorough')
 INSTANCES = [
     # quick tier: both set kinds, the inline-fallback entry points, bulk, cascade, ordering
-    canc(1, 0, 1, cost=1, tiers=_Q), canc(1, 0, 1, cost=0, tiers=_Q), canc(1, 2, 2, cost=1, tiers=_Q),
-    canc(0, 0, 1, tiers=_Q), canc(0, 2, 2, how=2, tiers=_Q), ordr(1, 1, tiers=_Q),
+    canc(1, 0, 1, cost=1, tiers=_Q), canc(1, 2, 2, cost=1, tiers=_Q), canc(0, 0, 1, tiers=_Q),
+    # measured too slow for the quick tier on the shared machine (SAT phase > 400 s under load): thorough only
+    canc(1, 0, 1, cost=0), canc(0, 2, 2, how=2), ordr(1, 1),
     # thorough tier: remaining entry points / pool sizes / cancel causes / completion calls
     canc(1, 0, 0, cost=1), canc(1, 0, 2, cost=0), canc(1, 0, 1, cost=1, how=1), canc(1, 0, 1, cost=0, how=2, fin=2),
     canc(1, 1, 1, cost=1), canc(1, 1, 0, cost=0), canc(1, 1, 2, cost=1, fin=1),
